@@ -6,7 +6,12 @@ import json, re, subprocess, sys, os
 ROOT = os.path.dirname(os.path.abspath(__file__))
 sys.path.insert(0, os.path.join(ROOT, "gen"))
 import skeletons
-obs = skeletons.emit()
+HARNESS = os.environ.get("VERIF_SCRATCH_HARNESS", os.path.join(ROOT, "harness"))
+OUT = os.environ.get("VERIF_SCRATCH_OUT", ROOT)
+if "VERIF_SCRATCH_HARNESS" in os.environ:
+    obs = json.load(open(os.path.join(HARNESS, "obligations.json")))
+else:
+    obs = skeletons.emit()
 rx = re.compile(sys.argv[1]) if len(sys.argv) > 1 and not sys.argv[1].startswith("--") else None
 tier = "quick"
 count = 40
@@ -16,10 +21,10 @@ for i, a in enumerate(sys.argv):
     if a == "--count":
         count = int(sys.argv[i + 1])
 f32 = "--f32" in sys.argv
-tdir = os.path.join(ROOT, "target/native-f32" if f32 else "target/native")
+tdir = os.path.join(OUT, "target/native-f32" if f32 else "target/native")
 env = dict(os.environ, RUSTFLAGS="--cfg corgi_verif", CARGO_NET_OFFLINE="true")
 p = subprocess.run(["cargo", "build", "--offline", "--bin", "replay", "--target-dir", tdir] + (["--features", "f32"] if f32 else []),
-                   cwd=os.path.join(ROOT, "harness"), env=env, stdout=subprocess.PIPE, stderr=subprocess.STDOUT, text=True)
+                   cwd=HARNESS, env=env, stdout=subprocess.PIPE, stderr=subprocess.STDOUT, text=True)
 if p.returncode != 0:
     print(p.stdout[-3000:]); sys.exit(2)
 bad = 0
